@@ -110,7 +110,15 @@ class MultiSetEdit(SequenceEdit):
         for kvp_edit in self._matched_kvp_edits:
             if kvp_edit.tighten_bounds():
                 return True
-        return self._matcher.tighten_bounds()
+        if self._matcher.tighten_bounds():
+            return True
+        elif self._matcher.is_complete():
+            return False
+        # The matcher's bounds can be definitive before it has chosen a matching (e.g., if all edges cost the same),
+        # but we need the matching to know which nodes are left over
+        bounds_before = self.bounds()
+        _ = self._matcher.matching
+        return not (self.bounds() == bounds_before)
 
     def bounds(self) -> Range:
         b = self._matcher.bounds()
